@@ -118,12 +118,18 @@ def fault_scenarios(cases, prop):
                     "meta": dict(c, family="fault")})
     return out
 
-BAD = {"unknown-as-set": ("AS-MISSING{k}", None), "error-E": ("AS-ERR{k}", "E"), "error-F": ("AS-ERR{k}", "F"),
+BAD = {"sunk-then-fail": ("AS{asn} AND AS-MISSING{k}", "sunk"), "unknown-as-set": ("AS-MISSING{k}", None), "error-E": ("AS-ERR{k}", "E"), "error-F": ("AS-ERR{k}", "F"),
        "peeras": ("PeerAS", None), "aspath-regex": ("<^AS65000 .* AS65001$>", None), "attr-match": ("community(65000:1)", None)}
 
 def bad_policy(irr, cls, k):
     """(expression, eval class) of a policy that cannot be evaluated"""
     t, err = BAD[cls]
+    if err == "sunk":
+        # the route queries of this AS are answered with an error the evaluator sinks; the as-set is unknown
+        irr.n += 1
+        asn = 64000 + irr.n
+        irr.db["errors"][f"!gAS{asn}"] = "F"; irr.db["errors"][f"!6AS{asn}"] = "F"
+        return t.format(asn=asn, k=k), "fail"
     expr = t.format(k=k)
     if err:
         irr.db["errors"][f"!i{expr},1"] = err
@@ -207,7 +213,8 @@ def c15_scenarios(cases, prop, rng):
 
 COMMENT = {"none": None, "other": "/* unrelated comment */", "fltr": "/* bgpfu-fltr: {e} */", "fltr-nospace": "/*bgpfu-fltr:{e}*/",
            "fltr-bare": "bgpfu-fltr: {e}", "fltr-bad": "/* bgpfu-fltr: error! */", "fltr-empty": "/* bgpfu-fltr: */",
-           "prefix-only-similar": "/* xbgpfu-fltr: {e} */"}
+           "prefix-only-similar": "/* xbgpfu-fltr: {e} */",
+           "fltr-doublestar": "/** bgpfu-fltr: {e} **/", "fltr-slashes": "// bgpfu-fltr: {e}", "fltr-unterminated": "/* bgpfu-fltr: {e}"}
 
 def shape_scenarios(cases, prop):
     out = []
